@@ -33,6 +33,7 @@ type kase struct {
 	// rt
 	data  []byte
 	pre   []byte // rt: when non-empty, Encode and Decode are also called with this non-empty dst to append to
+	wtie  bool   // rt: also compare the real Wuffs decoders with their Lean models on this payload's encodings
 	light bool   // rt: Go round-trip oracle only (no histogram of the chunk structure, no model, no external decoder)
 	// dec
 	format lz.FileFormat
@@ -412,7 +413,7 @@ func (w *worker) evalWuffs(k *kase, res *result) {
 			if k.chunked {
 				modes = append(modes, [2]uint32{1, 1}, [2]uint32{4093, 511})
 			}
-			if k.model && len(src) <= 4096 {
+			if k.wtie {
 				w.wuffsModelOps(k, f, enc, res)
 			}
 			for _, m := range modes {
@@ -739,12 +740,18 @@ func main() {
 
 	maxRat := 0.0
 	wfRuns := 0
+	// report the failing cases smallest input first (the first one becomes the replay file)
+	var allFails []failure
+	for _, res := range results {
+		allFails = append(allFails, res.fails...)
+	}
+	sort.SliceStable(allFails, func(a, b int) bool { return len(allFails[a].replay) < len(allFails[b].replay) })
+	for _, f := range allFails {
+		r.Fail(f.key, f.desc, f.replay)
+	}
 	for i, res := range results {
 		for _, o := range res.ops {
 			r.Op(o.op, o.impl)
-		}
-		for _, f := range res.fails {
-			r.Fail(f.key, f.desc, f.replay)
 		}
 		keys := make([]string, 0, len(res.counts))
 		for k := range res.counts {
